@@ -31,3 +31,34 @@ theorem plainU32_add (prof : Profile) (a b : Nat) (h : a + b < 4294967296) :
   rw [Int.natCast_add] at this; exact this
 
 end Fpdec.Kernels
+
+namespace Fpdec.Kernels
+open Fpdec
+
+theorem bind_inv {α β} {o : Outcome α} {f : α → Outcome β} {v : β} (h : (o >>= f) = .ok v) :
+    ∃ a, o = .ok a ∧ f a = .ok v := by
+  cases o with
+  | ok a => exact ⟨a, rfl, h⟩
+  | panic k => cases h
+
+theorem bind_congr_ok {α β} (o : Outcome α) {f g : α → Outcome β} (h : ∀ a, o = .ok a → f a = g a) :
+    (o >>= f) = (o >>= g) := by
+  cases o with
+  | ok a => exact h a rfl
+  | panic k => rfl
+
+theorem map_ok' {α β} (f : α → β) (a : α) : f <$> (Outcome.ok a) = Outcome.ok (f a) := (Outcome.map_ok f a).trans rfl
+
+theorem map_bind {α β γ} (f : β → γ) (x : Outcome α) (g : α → Outcome β) :
+    f <$> (x >>= g) = x >>= fun a => f <$> g a := by
+  cases x <;> rfl
+
+theorem bind_map {α β γ} (f : α → β) (x : Outcome α) (g : β → Outcome γ) :
+    (f <$> x) >>= g = x >>= fun a => g (f a) := by
+  cases x <;> rfl
+
+theorem bind_assoc' {α β γ} (x : Outcome α) (f : α → Outcome β) (g : β → Outcome γ) :
+    (x >>= f) >>= g = x >>= fun a => f a >>= g := by
+  cases x <;> rfl
+
+end Fpdec.Kernels
